@@ -223,6 +223,10 @@ def check_writer_roundtrip(ctx, index):
     table = []
     for _ in range(rng.randint(1, 6)):
         table.append([rng.choice(STRINGS + ["x", "y z"] + MARKUP_LOOK_ALIKES) for _ in range(rng.randint(1, 6))])
+    if len(table) >= 2 and rng.random() < 0.25:
+        # a row without items somewhere before the last row (a row of the table like any other: it reads back as a row of
+        # empty cells; at the end it could not be told from the end of the sheet)
+        table.insert(rng.randint(0, len(table) - 1), [])
     path = os.path.join(ctx.tmp, "rt.xlsx")
     case = {"table": table, "via": "XlsxRowWriter"}
     limit_case = None
